@@ -212,6 +212,13 @@ def small_graph_payloads(ctx):
             if k % ctx.n_shards == ctx.shard:
                 yield {"n": n, "code": code, "orders": [0, -1], "dup": True}
             k += 1
+    # every graph with 3 nodes where node 0 has a second output w0 that only node 2 may consume (v0 goes to nodes 0, 1):
+    # variables flowing from one cycle to another group without being consumed inside their own group
+    for code in range(2 ** 9):
+        if k % ctx.n_shards == ctx.shard:
+            edges = [[i, j, 2 if (i == 0 and j == 2) else 1] for i, j, _ in edges_from_code(3, code)]
+            yield {"n": 3, "edges": edges, "two_out": [True, False, False], "orders": [0, -1], "dup": False}
+        k += 1
     # every graph with 2 and 3 nodes again with optional (non-required, defaulted) inputs: all of them, then a mixed pattern
     for n in (2, 3):
         for code in range(2 ** (n * n)):
